@@ -34,7 +34,7 @@ SPEC = {
                     "operator is verified unitary on the shape"],
 }
 
-CLASSES = ["L1Reg", "L1Reg-arr", "L2Reg", "L2Reg-y", "L2Reg-L1", "L2Reg-Box", "L2Reg-L1Proj",
+CLASSES = ["L1Reg", "L1Reg-arr", "L2Reg", "L2Reg-y", "L2Reg-L1", "L2Reg-Box",
            "L2Proj", "L2Proj-y", "L2Proj-axes", "LInfProj", "LInfProj-bias", "L1Proj",
            "PsdProj", "Box", "Box-arr", "NoOp", "Conj-L1Reg", "Conj-L2Reg-y", "Conj-L2Proj",
            "Conj-LInfProj", "Conj-L1Proj", "Conj-Box", "Conj-Stack", "Stack", "Stack-alpha",
@@ -389,7 +389,9 @@ def run_case(case):
     P, shape, info = build(cls, rng, cplx)
     if ("Stack" in cls and cls == "Stack-alpha") or (
             case["pseed"] % 5 == 0 and cls in ("L1Reg", "L2Reg", "L2Reg-y", "Conj-L1Reg",
-                                               "Conj-L2Reg-y", "Conj-L2Proj", "Conj-LInfProj")):
+                                               "Conj-L2Reg-y", "Conj-L2Proj", "Conj-LInfProj",
+                                               "L2Reg-L1", "L2Reg-Box",
+                                               "L1Reg-arr", "Box", "LInfProj")):
         # element-wise step sizes (as the accelerated primal-dual solver passes them)
         alpha = np.abs(crandn(rng, shape, np.float64)) * float(10 ** rng.uniform(-2, 1)) + 1e-3
     else:
